@@ -89,6 +89,7 @@ struct Tabs {
     dir: PathBuf,
     index: HashMap<String, usize>,
     tables: Vec<Vec<Vec<(u64, u64)>>>,
+    raw: Vec<(usize, Vec<u8>)>,
 }
 
 impl Tabs {
@@ -123,6 +124,7 @@ impl Tabs {
         let i = self.tables.len();
         self.tables.push(t);
         self.index.insert(name.to_string(), i);
+        self.raw.push((i, data.clone()));
         i
     }
 }
@@ -153,7 +155,7 @@ fn run_case(plan: &Plan, root: &Path, case_no: usize) -> (String, String, bool) 
     std::fs::create_dir_all(&dir).unwrap();
     let dir = std::fs::canonicalize(&dir).unwrap();
     drop(TableStore::init(dir.clone(), 1));
-    let mut tabs = Tabs { dir: dir.clone(), index: HashMap::new(), tables: vec![vec![]] };
+    let mut tabs = Tabs { dir: dir.clone(), index: HashMap::new(), tables: vec![vec![]], raw: vec![] };
 
     let nprocs = plan.procs.len();
     let dir_s = dir.to_string_lossy().to_string();
@@ -385,7 +387,7 @@ fn run_case(plan: &Plan, root: &Path, case_no: usize) -> (String, String, bool) 
         coq::list(t.iter(), |seg| coq::list(seg.iter(), |(k, v)| format!("({k}, {v})")))
     });
     let term = format!(
-        "(C21.mk_case {} {} {} {} {} [{}] {} {} {} ({}, {}))",
+        "(C21.mk_case {} {} {} {} {} [{}] {} {} {} ({}, {}) {})",
         coq::b(plan.lw),
         nkeys,
         tabs_term,
@@ -397,6 +399,14 @@ fn run_case(plan: &Plan, root: &Path, case_no: usize) -> (String, String, bool) 
         nat_list_nat(&final_heads),
         final_id,
         lk_term(&final_lk),
+        // the three largest segment files of the case, byte for byte
+        {
+            let mut raw = tabs.raw.clone();
+            raw.sort_by_key(|(i, d)| (std::cmp::Reverse(d.len()), *i));
+            raw.truncate(3);
+            raw.sort_by_key(|(i, _)| *i);
+            coq::list(raw.iter(), |(i, d)| format!("({i}, {})", coq::bytes(d)))
+        },
     );
     let _ = std::fs::remove_dir_all(&dir);
     let crashed = final_pcs.iter().filter(|c| **c != 0 && **c != 7).count();
@@ -561,7 +571,7 @@ fn main() {
                         }
                         let r = jjv::catch(|| run_case(&plans[k].1, &root, plans[k].0)).unwrap_or_else(|| {
                             (
-                                "(C21.mk_case true 0 [] [] [] [] [] [] [] (0, []))".to_string(),
+                                "(C21.mk_case true 0 [] [] [] [] [] [] [] (0, []) [])".to_string(),
                                 "HARNESS-PANIC".to_string(),
                                 false,
                             )
